@@ -40,7 +40,7 @@ CHECKS = {
          "23 harnesses of 2-3 real threads with 1-2 Handle operations each on one real store (forced key collisions; entries below and above the 8 KiB write buffer; rollover inside a put; merges with and without rollover; one and two pooled readers; reader cache 0). Every schedule with <= 2 (quick) / <= 3 (thorough) preemptions — one more for the two-thread harnesses — is executed; scheduling points are every interposed system call on a store file and every hook point before an access to shared state. A second, sequential pass decides the last sentence of the property for reads that FAIL: in every state of every word of length <= 3|4 over {set, big set, overwrite, del, merge, reopen} x file sizes x reader cache {0,1,256} x pool depth {1,2} a get is repeated with each of its read-path calls (open for reading, mmap) failing once; afterwards the pool must hold every reader and every key must read as the model says. Each execution must finish without panic, error, deadlock or livelock, its call/return history must be linearizable against the map model, the final reads must agree with a valid linearization and every reader must be back in the pool.",
          "Sequentially consistent at point granularity; lock-free primitives (parking_lot, dashmap, crossbeam) trusted; conservative shadow-lock rule for merge vs. readers; 2-3 threads, <= 2 operations each.", "DESIGN.md §5 E3, §6 C04"),
  "C07": ("e4 resp", "model_checking", "bounded-exhaustive input enumeration against the real Frame::check / Frame::parse with an independent exact decoder as oracle; abort-prone inputs evaluated in forked children",
-         "ALL byte strings of length <= 6 (quick) / <= 7 (thorough) over 12 symbols (+ - : $ * 0 1 9 CR LF a 0xFF), a number grid (integer / bulk length / array length carriers, top level and nested after fillers of 0..40 bytes so the digits cross every buffer offset, three signs, 1..21 digits, values around i64::MIN/MAX, 10^19, 2^64), every truncation point of every grid message and request, nesting depths up to 10^6 and declared lengths up to 2^64-1 on 8 MiB and 2 MiB stacks in forked children. No panic / abort; accepted frames and lengths equal the independent decoder's; check and parse agree on the length both on the accepted bytes alone and on the same (longer) buffer, as the connection uses them; check length = parse length; no strict prefix accepted as the same frame.",
+         "ALL byte strings of length <= 6 (quick) / <= 8 (thorough, 470 million strings) over 12 symbols (+ - : $ * 0 1 9 CR LF a 0xFF), a number grid (integer / bulk length / array length carriers, top level and nested after fillers of 0..40 bytes so the digits cross every buffer offset, three signs, 1..21 digits, values around i64::MIN/MAX, 10^19, 2^64), every truncation point of every grid message and request, nesting depths up to 10^6 and declared lengths up to 2^64-1 on 8 MiB and 2 MiB stacks in forked children. No panic / abort; accepted frames and lengths equal the independent decoder's; check and parse agree on the length both on the accepted bytes alone and on the same (longer) buffer, as the connection uses them; check length = parse length; no strict prefix accepted as the same frame.",
          "Exhaustive only up to the stated string length / grids; bytes outside the 12-symbol alphabet are represented by 'a' and 0xFF.", "DESIGN.md §5 E4, §6 C07"),
  "C08": ("e4 resp", "model_checking", "bounded-exhaustive frames x sequences x segmentations x Pending/EOF scripts through the real Connection over a scripted stream under a hand-written executor",
          "Frame sequences (all kinds, i64 extremes, bulk strings with CR/LF/NUL and 8192/8193 bytes, arrays up to length 3|4, sequences up to 3|4 frames) are encoded by the real write_frame (bytes compared with an independent encoder) and decoded by the real read_frame under every segmentation (all 2^(n-1) for n <= 14|17 bytes; whole, byte-wise, all single cuts, pairs near the ends otherwise), every placement of <= 2 Pending answers, and every strict prefix followed by silence (must stay incomplete) or EOF (must be an error unless at a frame boundary).",
